@@ -165,6 +165,71 @@ def type_case(draw, depth=3):
     return {"kind": "type", "spec": spec, "draws": draws}
 
 
+# ------------------------------------------------------------------------------ template base / derived pairs
+def _plain_field():
+    """member types that need no class definition (usable inside the prelude module)"""
+    base = st.one_of(st.just({"k": "bit"}), st.just({"k": "bool"}), _vec(), _vec(), _fixed())
+    return st.one_of(base, base, st.builds(lambda e, n: {"k": "carr", "e": e, "n": n}, st.one_of(st.just({"k": "bit"}), _vec()),
+                                         st.integers(1, 3)),
+                     st.builds(lambda e, n: {"k": "sarr", "e": e, "n": n}, base, st.integers(1, 3)))
+
+
+@st.composite
+def tmplpair_case(draw):
+    """`class B(std.Record[ARG])`, `class E(B)` with extra members (derived without specialising), both
+    specialised with the SAME argument in a drawn order, plus an Enum and a FlagEnum over one underlying type"""
+    kind = draw(st.sampled_from(["width", "type"]))
+    if kind == "width":
+        tw = draw(st.integers(1, 6))
+        tm = {"kind": "width", "w": tw}
+        via = lambda: {"k": draw(st.sampled_from(["bv", "u", "s"])), "w": tw, "via": "w"}  # noqa: E731
+    else:
+        arg = draw(st.one_of(st.just({"k": "bit"}), _vec(), _fixed()))
+        tm = {"kind": "type", "arg": arg}
+        via = lambda: dict(arg, via="t")  # noqa: E731
+
+    def fields(n, force):
+        out = []
+        for i in range(n):
+            out.append(via() if (i == 0 and force) or draw(st.booleans()) else draw(_plain_field()))
+        return draw(st.permutations(out))
+
+    base = fields(draw(st.integers(1, 2)), True)
+    ext = fields(draw(st.integers(1, 3)), False)
+    uw = draw(st.integers(2, 5))
+    en = {"u": {"k": draw(st.sampled_from(["bv", "u"])), "w": uw},
+          "members": draw(st.lists(st.integers(0, (1 << uw) - 1), min_size=1, max_size=3, unique=True)),
+          "first": draw(st.sampled_from(["enum", "flag"]))}
+    draws = draw(st.lists(st.integers(0, (1 << 64) - 1), min_size=4, max_size=8))
+    return {"kind": "tmplpair", "tmpl": tm, "base": [[f"b{i}", s] for i, s in enumerate(base)],
+            "ext": [[f"f{i}", s] for i, s in enumerate(ext)], "first": draw(st.sampled_from(["base", "derived"])),
+            "enum": en, "draws": draws}
+
+
+def render_pair_prelude(case) -> str:
+    """module defining the template declaration PB, the derived PE and their specialisations TB / TE"""
+    tm = case["tmpl"]
+    r = Renderer()
+    if tm["kind"] == "width":
+        pre = "class PA(int):\n    pass"
+        inst = str(tm["w"])
+        via = lambda fs: {"bv": "BitVector", "u": "Unsigned", "s": "Signed"}[fs["k"]] + "[PA]"  # noqa: E731
+    else:
+        pre = "PA = std.TemplateArg.Type"
+        inst = r.texpr(tm["arg"])
+        via = lambda fs: "PA"  # noqa: E731
+
+    def lines(fields):
+        return [f"    {n}: " + (via(fs) if fs.get("via") else r.texpr(fs)) for n, fs in fields]
+
+    body = [HEADER, pre, "class PB(std.Record[PA]):\n" + "\n".join(lines(case["base"])),
+            "class PE(PB):\n" + "\n".join(lines(case["ext"]))]
+    spec_lines = [f"TB = PB[{inst}]", f"TE = PE[{inst}]"]
+    body.append("\n".join(spec_lines if case["first"] == "base" else spec_lines[::-1]))
+    assert not r.defs, "prelude member types must not need class definitions"
+    return "\n\n".join(body) + "\n"
+
+
 # ------------------------------------------------------------------------------ BitField strategy
 @st.composite
 def _bf(draw, width, depth):
@@ -204,6 +269,8 @@ class Renderer:
 
     def __init__(self):
         self.defs: list[str] = []
+        self.flags: list[str] = []  # class names of the std.FlagEnum / std.Enum types defined
+        self.enums: list[str] = []
         self._n = 0
 
     def _name(self, p):
@@ -253,6 +320,7 @@ class Renderer:
                 lit = repr(format(m, f"0{u['w']}b")) if u["k"] == "bv" else str(m)
                 lines.append(f"    m{i} = {lit}")
             self.defs.append("\n".join(lines))
+            (self.flags if s["k"] == "flag" else self.enums).append(name)
             return name
 
         return self._cached(s, build)
@@ -261,6 +329,10 @@ class Renderer:
         def build():
             tm = s.get("tmpl")
             name = self._name("R")
+            if s.get("ext"):
+                # class defined by a module loaded earlier (template base / derived pairs)
+                self.defs.append(f"from {s['ext']['module']} import {s['ext']['expr']} as {name}")
+                return name
             if tm is None:
                 if s.get("base"):
                     bname = name + "B"
@@ -324,28 +396,78 @@ class Renderer:
         return fs
 
     # -- construction from a tree of leaf constants ------------------------------------
-    def make(self, s, v: str) -> str:
+    STYLES = ("kw", "pos", "shuf", "mixed", "copy")
+
+    def make(self, s, v: str, style: str = "kw") -> str:
+        """construction expression from the tree `v` of leaf constants.  `style` = how every record
+        in the tree is built: kw (keywords, declaration order), pos (all positional), shuf (keywords
+        in reversed order), mixed (first half positional, rest keywords reversed), copy (copy
+        constructor applied to the shuf form)."""
         k = s["k"]
         if k in ("bit", "bool", "bv", "u", "s"):
             return v
         if k in ("carr", "sarr"):
-            elems = ", ".join(self.make(s["e"], f"{v}[{i}]") for i in range(s["n"]))
+            elems = ", ".join(self.make(s["e"], f"{v}[{i}]", style) for i in range(s["n"]))
             if k == "carr":
-                return f"{self.texpr(s)}([{elems}])"
+                # std.Value[Array[..]](list): the constant array for constant elements, a Temporary for signals
+                return f"std.Value[{self.texpr(s)}]([{elems}])"
             return f"{self.texpr(s)}([{elems}], _qualifier_=std.Value)"
         if k == "rec":
-            self.texpr(s)
-            args = ", ".join(
-                f"{n}={self.make(self._fspec(s, fs), f'{v}[{i}]')}" for i, (n, fs) in enumerate(L.rec_fields(s))
-            )
-            return f"{self.texpr(s)}({args})"
+            T = self.texpr(s)
+            parts = [(n, self.make(self._fspec(s, fs), f"{v}[{i}]", style)) for i, (n, fs) in enumerate(L.rec_fields(s))]
+            kw = [f"{n}={e}" for n, e in parts]
+            if style == "kw":
+                return f"{T}({', '.join(kw)})"
+            if style == "pos":
+                return f"{T}({', '.join(e for _, e in parts)})"
+            if style == "shuf":
+                return f"{T}({', '.join(kw[::-1])})"
+            if style == "mixed":
+                h = (len(parts) + 1) // 2
+                return f"{T}({', '.join([e for _, e in parts[:h]] + kw[h:][::-1])})"
+            return f"{T}({T}({', '.join(kw[::-1])}))"
         if k in ("enum", "flag"):
             return f"{self.texpr(s)}._unsafe_init_({v})"
         if k in ("sfix", "ufix"):
             return f"{self.texpr(s)}(raw={v})"
         if k == "ser":
-            return f"{self.texpr(s)}({self.make(s['e'], v)})"
+            return f"{self.texpr(s)}({self.make(s['e'], v, style)})"
         raise ValueError(k)
+
+    def tree(self, s, x: str):
+        """(statements, expression): the value `x` taken apart into the nested list of leaf values that
+        `make` accepts (used by the simulated level to rebuild a value through the constructors)"""
+        stmts: list[str] = []
+        counter = [0]
+
+        def tmp(expr):
+            counter[0] += 1
+            name = f"u{counter[0]}"
+            stmts.append(f"{name} = {expr}")
+            return name
+
+        def walk(s, x):
+            k = s["k"]
+            if k in ("bit", "bool", "bv", "u", "s"):
+                return x
+            if k == "sfix":
+                return f"std.to_bits({x}).signed"
+            if k == "ufix":
+                return f"std.to_bits({x}).unsigned"
+            if k == "carr":
+                return "[" + ", ".join(walk(s["e"], f"{x}[{i}]") for i in range(s["n"])) + "]"
+            if k == "sarr":
+                return "[" + ", ".join(walk(s["e"], tmp(f"{x}.get_elem({i}, std.Value)")) for i in range(s["n"])) + "]"
+            if k == "rec":
+                return "[" + ", ".join(walk(self._fspec(s, fs), f"{x}.{n}") for n, fs in L.rec_fields(s)) + "]"
+            if k in ("enum", "flag"):
+                return walk(s["u"], f"{x}.raw")
+            if k == "ser":
+                return walk(s["e"], tmp(f"{x}.value()"))
+            raise ValueError(k)
+
+        e = walk(s, x)
+        return stmts, e
 
     # -- leaf access ---------------------------------------------------------------------
     def leaves(self, s, x: str, idx=False, const: str | None = None):
@@ -440,6 +562,7 @@ def render_type_module(spec) -> str:
     T = r.texpr(spec)
     body = [HEADER]
     mk = r.make(spec, "v")
+    multi = has_multi_record(spec)
     st_l, lv, _ = r.leaves(spec, "x")
     st_i, lvi, _ = r.leaves(spec, "x", idx=True)
     st_f, _, feq = r.leaves(spec, "x", const="v")
@@ -457,6 +580,19 @@ def render_type_module(spec) -> str:
         body.append("def nbits():\n    return std.count_bits(T)")
         body.append("def nbits_inst(x):\n    return std.count_bits(x)")
     body.append(f"def make(v):\n    return {mk}")
+    # the other construction styles only differ for records with at least two members
+    for st_name in Renderer.STYLES[1:]:
+        body.append(f"def make_{st_name}(v):\n    return {r.make(spec, 'v', st_name) if multi else 'make(v)'}")
+    body.append("STYLES = " + repr(list(Renderer.STYLES) if multi else ["kw"]))
+    body.append("def make_any(k, v):\n"
+                "    if k % 5 == 0:\n        return make_shuf(v)\n"
+                "    elif k % 5 == 1:\n        return make_mixed(v)\n"
+                "    elif k % 5 == 2:\n        return make_copy(v)\n"
+                "    elif k % 5 == 3:\n        return make_pos(v)\n"
+                "    return make(v)")
+    st_t, tree_e = r.tree(spec, "x")
+    body.append(_fn("tree(x)", st_t, tree_e))
+    body.append(f"FLAGS = [{', '.join(r.flags)}]\nENUMS = [{', '.join(r.enums)}]")
     body.append(_fn("leaves(x)", st_l, _tuple(e for e, _ in lv)))
     body.append(_fn("leaves_idx(x)", st_i, _tuple(e for e, _ in lvi)))
     body.append(_fn("fixed_eq(x, v)", st_f if feq else [], _tuple(feq)))
@@ -473,11 +609,13 @@ def render_type_module(spec) -> str:
         "            for k in range(len(PATS)):\n"
         "                x = frombits(PATS[k])\n"
         "                probe('a', k, nbits(), tobits(x), leaves(x))\n"
-        "                y = make(VALS[k])\n"
+        "                y = make_any(k, VALS[k])\n"
         "                by = tobits(y)\n"
         "                probe('b', k, by, fixed_eq(x, VALS[k]))\n"
     )
-    body.append(_sim_entity(spec, st_l, lv))
+    body.append(_sim_entity(spec, st_l, lv, False))
+    if multi:  # same entity plus o2 = to_bits(value rebuilt through the constructors, keywords reversed)
+        body.append(_sim_entity(spec, st_l, lv, True).replace("class Sim(", "class Sim2(", 1))
     return "\n\n".join(body) + "\n"
 
 
@@ -485,13 +623,26 @@ def _fn(sig, stmts, ret):
     return f"def {sig}:\n" + "".join(f"    {l}\n" for l in stmts) + f"    return {ret}"
 
 
-def _sim_entity(spec, stmts, lv) -> str:
+def has_multi_record(spec) -> bool:
+    """some record in the tree has at least two members (keyword order can matter)"""
+    k = spec["k"]
+    if k == "rec":
+        fs = L.rec_fields(spec)
+        return len(fs) >= 2 or any(has_multi_record(f) for _, f in fs)
+    if k in ("carr", "sarr", "ser"):
+        return has_multi_record(spec["e"])
+    return False
+
+
+def _sim_entity(spec, stmts, lv, multi=False) -> str:
     w = L.width(spec)
     lines = [
         "class Sim(cohdl.Entity):",
         f"    i = Port.input(BitVector[{w}])",
         f"    o1 = Port.output(BitVector[{w}])",
     ]
+    if multi:  # value rebuilt through the constructors with keywords in reversed order
+        lines.append(f"    o2 = Port.output(BitVector[{w}])")
     for n, (_, leaf) in enumerate(lv):
         lines.append(f"    l{n} = Port.output({leaf_port_type(leaf)})")
     lines += [
@@ -504,6 +655,8 @@ def _sim_entity(spec, stmts, lv) -> str:
     lines += [f"            {l}" for l in stmts]
     for n, (e, _) in enumerate(lv):
         lines.append(f"            self.l{n} <<= {e}")
+    if multi:
+        lines.append("            self.o2 <<= tobits(make_shuf(tree(x)))")
     return "\n".join(lines)
 
 
